@@ -356,6 +356,23 @@ theorem shared_key_defect_witness :
       (oI.exprs.map (evalPoly (fun q => q) sharedEnv)) = [2, -2] := by
   refine ⟨_, _, rfl, rfl, ?_, ?_, ?_, ?_⟩ <;> decide +kernel
 
+/-- `A -> k` with rate parameter `MassAction([5], unique_keys=['k'])`, where a *substance* is called `k` -/
+def captureSys : Sys :=
+  { subst := ["A", "k"], rxns := [{ reac := [("A", 1)], prod := [("k", 1)], param := .named "k" 5 }] }
+
+/-- **Witness of a defect of the real code (mirrored by the model, reported as a finding).**  Substances, parameters and
+    unique keys live in one `variables` dict.  With `include_params=True` the unique key `k` is not a parameter name, pyodesys
+    sees no clash, the build is accepted — and `Expr.arg` finds the *concentration* of substance `k` under the unique key:
+    the right-hand side is `(-A·k, A·k)` instead of `(-5·A, 5·A)`.  (`rhs_is_NT_r` stays true: it speaks about the
+    coefficient as resolved through `variables`, and `rate_coeff_spec` says that a name among the substances resolves to
+    that symbol.)  With `include_params=False` the same system is rejected (names/param_names clash). -/
+theorem name_capture_defect_witness :
+    ∃ o, buildRhs { includeParams := true } captureSys = .ok o ∧ o.paramNames = [] ∧
+      o.exprs = [⟨[([("A", 1), ("k", 1)], -1)]⟩, ⟨[([("A", 1), ("k", 1)], 1)]⟩] ∧
+      o.exprs ≠ [⟨[([("A", 1)], -5)]⟩, ⟨[([("A", 1)], 5)]⟩] ∧
+      buildRhs { includeParams := false } captureSys = .error .valueError := by
+  refine ⟨_, rfl, ?_, ?_, ?_, rfl⟩ <;> decide +kernel
+
 /-- `2 A + B -> C` (plain `3/2`), `C -> A` (named `k2 = 5`), `B -> D` (string key `k3`), `D -> B` (`Symbol('k4')`) -/
 def exSys : Sys :=
   { subst := ["A", "B", "C", "D"],
